@@ -195,6 +195,11 @@ fn report_known_findings(a: &Args) -> Result<(), String> {
                 let out = vecworld::exec::run_case(&case).outcome;
                 out.violation.map_or(false, |v| f["expect_oracles"].as_array().map_or(false, |o| o.iter().any(|x| x == v.oracle.as_str())))
             }
+            Some("async-contention") => {
+                let case: obsworld::asyncsim::ACase = serde_json::from_value(f["scenario"].clone()).map_err(|e| format!("{path}: scenario of {id}: {e}"))?;
+                let out = obsworld::asyncsim::run_async_case(&case);
+                out.violation.map_or(false, |v| f["expect_oracles"].as_array().map_or(false, |o| o.iter().any(|x| x == v.oracle.as_str())))
+            }
             _ => false,
         };
         if fails {
@@ -325,7 +330,7 @@ fn main() {
                 }
                 "C20" => {
                     let h = half(&a);
-                    let (c1, e1) = run_check(&vecworld::check::VecCheck { prop: "C20".into(), kf_retire: a.kf_retire }, &h, "exploration", 1_000_000, 120);
+                    let (c1, e1) = run_check(&vecworld::check::VecCheck { prop: "C20".into(), kf_retire: a.kf_retire }, &h, "exploration", 3_000_000, 120);
                     let (c2, e2) = if c1 == 0 { run_check(&obsworld::check::ObsCheck { prop: "C20".into() }, &h, "exploration", 1_000_000, 120) } else { (0, None) };
                     let parts: Vec<(&str, serde_json::Value)> = [("vector world", e1), ("observable world (both lock flavours)", e2)].into_iter().filter_map(|(n, e)| e.map(|e| (n, e))).collect();
                     if !parts.is_empty() && c1.max(c2) != 2 {
